@@ -244,7 +244,8 @@ PROPS = {
         "nontrivial_stat": "probe.request_answered",
         "rule": "one run = an instance with 0-3 wallets following a generated chain (payments of all kinds, NullData outputs, "
                 "forks, unconfirmed transactions) while a client issues 10-70 requests to the real api.APIServer methods "
-                "(29 methods; gRPC transport not involved) interleaved with handler/worker steps, so requests meet the wallet "
+                "(29 methods; gRPC transport not involved) and to 10 WalletManager methods below the API layer (only with argument "
+                "shapes the API layer can pass on) interleaved with handler/worker steps, so requests meet the wallet "
                 "in every state: nothing selected, importing, being removed, coins pending or spent. Each argument is drawn "
                 "either from fitting material of the world (addresses of the selected/another wallet/strangers, staking and "
                 "binding forms, transaction ids and outpoints of unspent/spent/pending/foreign outputs, drafts and signed "
